@@ -34,15 +34,21 @@ def check(run):
     prog = run.prog
     classes = imputer_classes(prog)
     run.need(len(classes) >= 3, f"only {len(classes)} imputer classes discovered (expected >= 3)")
+    from .common import ctor_wiring
     for cls in classes:
         _imputer(run, prog, cls)
+        ctor_wiring(run, prog, cls, "CTOR")         # strategy / storage / defaults as configured
 
 
 class FilterRun:
     """Forwards obligations of selected rules only (rules=None: all), renamed, so that one property's
     check can include the clauses of another property it depends on."""
-    def __init__(self, run, rules, rename=None, prefix=None):
+    def __init__(self, run, rules, rename=None, prefix=None, only=None):
         self._run, self._rules, self._rename, self._prefix = run, (set(rules) if rules is not None else None), rename or {}, prefix
+        self._only = only           # optional predicate on (rule, instance): forward matching obligations only
+
+    def _wanted(self, rule, instance):
+        return (self._rules is None or rule in self._rules) and (self._only is None or self._only(rule, instance))
 
     def __getattr__(self, name):
         return getattr(self._run, name)
@@ -56,24 +62,25 @@ class FilterRun:
         return f"{rule}:{inst}" if self._prefix else inst
 
     def ok(self, rule, instance, detail=""):
-        if self._rules is None or rule in self._rules:
+        if self._wanted(rule, instance):
             self._run.ok(self._name(rule), self._inst(rule, instance), detail)
 
     def fail(self, rule, instance, *a, **k):
-        if self._rules is None or rule in self._rules:
+        if self._wanted(rule, instance):
             self._run.fail(self._name(rule), self._inst(rule, instance), *a, **k)
 
     def check(self, cond, rule, instance, *a, **k):
-        if self._rules is None or rule in self._rules:
+        if self._wanted(rule, instance):
             return self._run.check(cond, self._name(rule), self._inst(rule, instance), *a, **k)
         return bool(cond)
 
 
-def depends_on(run, pid, rules=None):
-    """Include the obligations of property `pid` (optionally only some rules) under the rule name DEP-<pid>."""
+def depends_on(run, pid, rules=None, only=None):
+    """Include the obligations of property `pid` (optionally only some rules / instances) under the rule name
+    DEP-<pid>."""
     import importlib
     mod = importlib.import_module(f"sa.rules.{pid.lower()}")
-    mod.check(FilterRun(run, rules, prefix=f"DEP-{pid}"))
+    mod.check(FilterRun(run, rules, prefix=f"DEP-{pid}", only=only))
 
 
 def _imputer(run, prog, cls):
